@@ -284,7 +284,12 @@ func (i *IPC) ProxyAnswers(arg messages.Arg, response *[]byte) error {
 
 	if success {
 		vhook("a.send", id, answer)
-		snowflake.answerChannel <- answer
+		// Never block: the client may have timed out since the lookup, or
+		// an answer for this snowflake may already have been delivered.
+		select {
+		case snowflake.answerChannel <- answer:
+		default:
+		}
 		vhook("a.sent", id, answer)
 	}
 
